@@ -126,6 +126,9 @@ Lemma R_os_put x f v : R x -> R (os_put x f v). Proof. exact (fun H => H). Qed.
 Lemma R_set_comp x c i n : R x -> R (set_comp x c i n). Proof. exact (fun H => H). Qed.
 Lemma R_set_olog x v : R x -> R (set_olog x v). Proof. exact (fun H => H). Qed.
 Lemma R_set_cprog x v : R x -> R (set_cprog x v). Proof. exact (fun H => H). Qed.
+Lemma R_set_tim x a b c d : R x -> R (set_tim x a b c d). Proof. exact (fun H => H). Qed.
+Lemma R_set_tmeta x v : R x -> R (set_tmeta x v). Proof. exact (fun H => H). Qed.
+Lemma R_add_sout k v x : R x -> R (add_sout k v x). Proof. exact (fun H => H). Qed.
 Lemma R_try_io x b f w : R x -> R (snd (try_io x b f w)).
 Proof.
   intros H. unfold try_io. cbv zeta. destruct (closedA (os_get x f)); [exact H|]. destruct b.
@@ -149,9 +152,21 @@ Proof.
   destruct d; [apply R_stp, R_set_comp; exact T|apply R_comp_wait; exact T].
 Qed.
 
+Lemma R_oco ob x : R x -> R (do_op (OCO ob) x).
+Proof.
+  intros H. cbn [do_op]. destruct (assoc (tnaive x) ob) as [[k|]|]; try exact H.
+  destruct (assoc (tmeta x) k) as [[r0 dl]|]; try exact H.
+  destruct (N.ltb (clock (ms x)) dl); try exact H. cbv zeta.
+  set (x1 := set_tim x (tobj x) (towner x) ((ob, None) :: tnaive x) (tcans x ++ [(k, clock (ms x))])).
+  assert (R x1) as H1 by (apply R_set_tim; exact H).
+  destruct (assoc (tobj x1) ob) as [[t|]|]; try exact H1. apply R_stp, R_set_tim. exact H1.
+Qed.
+
 Lemma R_do_op o x : R x -> R (do_op o x).
 Proof.
-  intros H. destruct o; cbn [do_op]; cbv zeta; try (apply R_comp_start; exact H); try (apply R_comp_start, R_set_cprog; exact H).
+  intros H. destruct o; try (apply R_oco; exact H); cbn [do_op]; cbv zeta; try (apply R_comp_start; exact H); try (apply R_comp_start, R_set_cprog; exact H);
+    try (destruct (closedA (os_get x f)); [apply R_os_put; exact H|exact H]; fail);
+    try (apply R_stp, R_set_tim, R_set_tmeta, R_add_sout; exact H; fail).
   - apply R_stp. exact H.
   - apply R_stp. exact H.
   - apply R_stp. exact H.
@@ -181,7 +196,8 @@ Lemma R_complete k n x : R x -> R (complete k n x).
 Proof. intros H. unfold complete. apply R_do_ops, R_set_olog. exact H. Qed.
 Lemma R_after_exec h c x : R x -> R (after_exec h c x).
 Proof.
-  intros H. unfold after_exec. destruct (assoc (comp x) h) as [[[[k b] f] al]|]; [|apply R_complete; exact H].
+  intros H. unfold after_exec. destruct (assoc (comp x) h) as [[[[k b] f] al]|];
+    [|apply R_complete; destruct (assoc (towner x) h); [apply R_set_tim; exact H|exact H]].
   destruct (assoc (cimm x) h); [apply R_complete; exact H|].
   destruct c; try (apply R_complete; exact H).
   pose proof (R_xfer_step k b f al x H) as T. destruct (xfer_step k b f al x) as [[n d] x1]. cbn [snd] in T.
